@@ -698,20 +698,27 @@ fn eval_server(sess: &mut Session, ctx: &Ctx, text: &str, flagged: &str) -> Resu
 /// The ignore path of the JS API (`harper_wasm::Linter::{lint, ignore_lint, export_ignored_lints,
 /// import_ignored_lints}`, built natively): lint, ignore one reported lint, lint again = the first
 /// result minus exactly that lint; a fresh linter that imports the exported list reports the same.
-fn eval_js(sess: &mut Session, text: &str) {
+fn eval_js(sess: &mut Session, text: &str, user_words: &[&str]) {
     use harper_wasm::{Dialect as WDialect, Language, Linter as WLinter};
     let key = |l: &harper_wasm::Lint| (l.span().start, l.span().end, l.message());
-    let mut js = WLinter::new(WDialect::American);
+    let mk = || {
+        let mut l = WLinter::new(WDialect::American);
+        if !user_words.is_empty() {
+            l.import_words(user_words.iter().map(|w| w.to_string()).collect());
+        }
+        l
+    };
+    let mut js = mk();
     let Ok(first) = guarded(|| js.lint(text.to_string(), Language::Plain)) else { return };
     for k in 0..first.len() {
-        let mut js = WLinter::new(WDialect::American);
+        let mut js = mk();
         let Ok(first) = guarded(|| js.lint(text.to_string(), Language::Plain)) else { return };
         let want: Vec<_> = first.iter().enumerate().filter(|(i, _)| *i != k).map(|(_, l)| key(l)).collect();
         let target = key(&first[k]);
         let mut it = first.into_iter();
         let Some(l) = it.nth(k) else { return };
         if guarded(|| js.ignore_lint(text.to_string(), l)).is_err() {
-            sess.fail("js-ignore-panic", "Linter::ignore_lint panicked".into(), json!({"kind": "js", "text": text, "index": k}), None);
+            sess.fail("js-ignore-panic", "Linter::ignore_lint panicked".into(), json!({"kind": "js", "text": text, "index": k, "user_words": user_words}), None);
             return;
         }
         let Ok(second) = guarded(|| js.lint(text.to_string(), Language::Plain)) else { return };
@@ -729,19 +736,19 @@ fn eval_js(sess: &mut Session, text: &str) {
             continue;
         }
         if got != want {
-            sess.fail("js-ignore-not-exact", format!("ignore_lint({:?}): lint() went from {} lints to {:?}, expected the first result minus that lint: {:?}", target, want.len() + 1, got, want), json!({"kind": "js", "text": text, "index": k}), None);
+            sess.fail("js-ignore-not-exact", format!("ignore_lint({:?}): lint() went from {} lints to {:?}, expected the first result minus that lint: {:?}", target, want.len() + 1, got, want), json!({"kind": "js", "text": text, "index": k, "user_words": user_words}), None);
             return;
         }
         let exported = js.export_ignored_lints();
-        let mut fresh = WLinter::new(WDialect::American);
+        let mut fresh = mk();
         if fresh.import_ignored_lints(exported).is_err() {
-            sess.fail("js-import-rejects-export", "import_ignored_lints rejected the exported list".into(), json!({"kind": "js", "text": text, "index": k}), None);
+            sess.fail("js-import-rejects-export", "import_ignored_lints rejected the exported list".into(), json!({"kind": "js", "text": text, "index": k, "user_words": user_words}), None);
             return;
         }
         let Ok(third) = guarded(|| fresh.lint(text.to_string(), Language::Plain)) else { return };
         sess.o();
         if third.iter().map(key).collect::<Vec<_>>() != want {
-            sess.fail("js-export-import-differs", format!("a fresh linter with the exported ignore list reports {:?}, expected {:?}", third.iter().map(key).collect::<Vec<_>>(), want), json!({"kind": "js", "text": text, "index": k}), None);
+            sess.fail("js-export-import-differs", format!("a fresh linter with the exported ignore list reports {:?}, expected {:?}", third.iter().map(key).collect::<Vec<_>>(), want), json!({"kind": "js", "text": text, "index": k, "user_words": user_words}), None);
             return;
         }
         sess.count("js:ignored-one-of-n");
@@ -767,7 +774,9 @@ pub fn run(ctx: &Ctx) {
                 let ok = eval_server(&mut sess, ctx, &text, v["flagged"].as_str().unwrap_or("")).is_ok();
                 sess.monitor("the in-process language server completed the C14 sessions", ok);
             } else {
-                eval_js(&mut sess, &text);
+                let uw: Vec<String> = serde_json::from_value(v["user_words"].clone()).unwrap_or_default();
+                let uw: Vec<&str> = uw.iter().map(|x| x.as_str()).collect();
+                eval_js(&mut sess, &text, &uw);
             }
             sess.nontrivial("replay-a");
             sess.nontrivial("replay-b");
@@ -925,7 +934,13 @@ pub fn run(ctx: &Ctx) {
     sess.monitor("the in-process language server completed the C14 sessions", ok);
     let njs = if ctx.tier == Tier::Thorough { 300 } else { 40 };
     for (t, _) in SERVER_TEXTS {
-        eval_js(&mut sess, t);
+        eval_js(&mut sess, t, &[]);
+    }
+    // the user's own words next to the lints: the document `ignore_lint` hashes must be the one `lint` parses
+    // (same dictionary: curated + user), or the stored context never matches
+    for t in ["We measured the the florbium sample and found an florbium trace.", "An florbium is here, and a zqxvword apple too.", "The florbium florbium was an zqxvword."] {
+        eval_js(&mut sess, t, &["florbium", "zqxvword"]);
+        sess.count("origin:js-user-words");
     }
     for _ in 0..njs {
         let mut t = sents[rng.below(sents.len())].clone();
@@ -936,7 +951,7 @@ pub fn run(ctx: &Ctx) {
         if t.contains('"') || t.contains('“') || t.contains('”') {
             continue; // c14-quote-twin-loc is recorded on the core path
         }
-        eval_js(&mut sess, &t);
+        eval_js(&mut sess, &t, &[]);
         sess.count("origin:js");
     }
     let nk = env.kinds.len();
